@@ -198,6 +198,7 @@ NumAsDoc(n) == IF n.k = "i" THEN [t |-> "I", neg |-> n.neg, d |-> n.d]
                ELSE [t |-> "F", neg |-> n.neg, d |-> n.d, fr |-> n.fr, sp |-> n.sp]
 (* operands after casting: [t |-> "val", v, r] with r the representation, or a result "M"/"F"   *)
 OpVal(v, r) == [t |-> "val", v |-> v, r |-> r]
+OpRes(x) == [t |-> "res", v |-> [t |-> "N"], r |-> x]       \* the operand already decides the result: "M" / "F" / "U"
 CmpTable(op, x, y) ==
   LET nx == NumOf(x.v) ny == NumOf(y.v) IN
   IF x.r = "Bool" \/ y.r = "Bool" \/ x.r = "Null" \/ y.r = "Null"
@@ -213,18 +214,18 @@ IntRepr(n) == IF n.neg /\ StripLead(n.d) # <<>> THEN "Int" ELSE "Int"     \* cas
 OperandE(o, doc) ==
   CASE o.t = "field" ->
          LET v == DFind(doc, o.f) IN
-         IF IsNone(v) THEN "M" ELSE IF v.t \in {"I", "F"} THEN OpVal(v, ReprOf(v)) ELSE "F"
+         IF IsNone(v) THEN OpRes("M") ELSE IF v.t \in {"I", "F"} THEN OpVal(v, ReprOf(v)) ELSE OpRes("F")
     [] o.t = "xcast" /\ o.k = "flt" ->
          LET v == DFind(doc, o.f) r == FltCast(v) IN
-         IF r.t = "miss" THEN "M" ELSE IF r.t = "num" THEN OpVal(NumAsDoc(r.n), "Float")
-         ELSE IF r.t = "unk" THEN "U" ELSE "F"
+         IF r.t = "miss" THEN OpRes("M") ELSE IF r.t = "num" THEN OpVal(NumAsDoc(r.n), "Float")
+         ELSE IF r.t = "unk" THEN OpRes("U") ELSE OpRes("F")
     [] o.t = "xcast" /\ o.k = "int" ->
          LET v == DFind(doc, o.f) r == IntCast(v) IN
-         IF r.t = "miss" THEN "M" ELSE IF r.t = "num" THEN OpVal(NumAsDoc(r.n), "Int")
-         ELSE IF r.t = "unk" THEN "U" ELSE "F"
+         IF r.t = "miss" THEN OpRes("M") ELSE IF r.t = "num" THEN OpVal(NumAsDoc(r.n), "Int")
+         ELSE IF r.t = "unk" THEN OpRes("U") ELSE OpRes("F")
     [] o.t = "xbool" -> OpVal([t |-> "B", b |-> o.b], "Bool")
     [] o.t = "xnum" -> OpVal(NumAsDoc(o.n), IF o.n.k = "f" THEN "Float" ELSE "Int")
-    [] OTHER -> "F"                                          \* "encountered invalid ... hand side"
+    [] OTHER -> OpRes("F")                                   \* "encountered invalid ... hand side"
 
 SolveCmp(x, doc) ==
   IF x.l.t = "xcast" /\ x.l.k = "str" /\ x.op = "eq" /\ x.r.t = "xcast" /\ x.r.k = "str"
@@ -238,9 +239,9 @@ SolveCmp(x, doc) ==
   ELSE IF x.l.t = "field" /\ x.op = "eq" /\ x.r.t = "xnull"
   THEN LET v == DFind(doc, x.l.f) IN IF IsNone(v) THEN "M" ELSE TriOf(v.t = "N")
   ELSE LET a == OperandE(x.l, doc) IN
-       IF a \in {"M", "F", "U"} THEN a
+       IF a.t = "res" THEN a.r
        ELSE LET b == OperandE(x.r, doc) IN
-            IF b \in {"M", "F", "U"} THEN b ELSE TriOf(CmpTable(x.op, a, b))
+            IF b.t = "res" THEN b.r ELSE TriOf(CmpTable(x.op, a, b))
 
 LookupX(ids, n) == LET idx == {i \in DOMAIN ids : ids[i][1] = n} IN
                    IF idx = {} THEN XNONE ELSE ids[MinOf(idx)][2]
